@@ -11,14 +11,10 @@ func geometryCollectionReader(r io.Reader, byteOrder binary.ByteOrder) (geom.Geo
 	if err := binary.Read(r, byteOrder, &numGeometries); err != nil {
 		return nil, err
 	}
-	geoms := make([]geom.Geom, numGeometries)
+	geoms := make([]geom.Geom, 0, capHint(numGeometries, maxMemberHint))
 	for i := uint32(0); i < numGeometries; i++ {
 		if g, err := Read(r); err == nil {
-			var ok bool
-			geoms[i], ok = g.(geom.Geom)
-			if !ok {
-				return nil, &UnexpectedGeometryError{g}
-			}
+			geoms = append(geoms, g)
 		} else {
 			return nil, err
 		}
